@@ -175,6 +175,8 @@ def check_plain(chk, H, K, n, iPu, noise, method, newH, Ms, W, case, kappaH, nor
     powered = colp > 0
     noff = int(np.sum(~powered))
     chk.outcome("switched_off_streams", (method, K, n, noff))
+    if noff:
+        chk.count("cases_with_switched_off_stream")
     W = np.asarray(W)
     if W.shape != (N, N):
         chk.fail((name, "receive_filter", "shape"), case, observed=W.shape, expected=(N, N))
@@ -303,6 +305,25 @@ def first_principles_metric(metric, Wk, Hk, Msk, Re_k):
     return float(np.sum(se))
 
 
+def own_kappa(kind, metric, nsk, n, A, Re_k):
+    """condition number of the matrix the receive filter has to invert, computed
+    here (never from the returned filter): A = H_k Ms_k, projected on the kept
+    receive subspace where the variant projects.  None when that subspace is not
+    unique (degenerate eigenvalues of R_e at the cut)."""
+    if kind == "whitening" or metric is None or nsk == n:
+        B = A
+    elif metric == "naive":
+        B = A[:nsk, :]
+    else:
+        lam, V = np.linalg.eigh((Re_k + Re_k.conj().T) / 2.0)
+        gap = lam[nsk] - lam[nsk - 1]
+        if gap <= 1e-6 * max(abs(lam[-1]), 1e-300):
+            return None
+        B = V[:, :nsk].conj().T @ A
+    sv = np.linalg.svd(B, compute_uv=False)
+    return float(sv[0] / sv[-1]) if sv[-1] > 0 else math.inf
+
+
 def check_ext(chk, Hfull, K, n, r, noise, pe, iPu, variant, res, case):
     kind, metric, ns = variant
     name = ("WhiteningBD" if kind == "whitening" else "EnhancedBD", str(metric))
@@ -323,6 +344,21 @@ def check_ext(chk, Hfull, K, n, r, noise, pe, iPu, variant, res, case):
     kapw = 1.0
     if kind == "whitening":
         kapw = max(math.sqrt(float(np.linalg.cond(Re[k]))) for k in range(K))
+    kap_whole = None
+    if kind == "whitening":
+        # WhiteningBD inverts the WHOLE whitened effective channel blockdiag(R_k^-1/2 H_k Ms_k)
+        # with one pinv: its conditioning is max over users / min over users
+        try:
+            smax, smin = 0.0, math.inf
+            for k in range(K):
+                lam, V = np.linalg.eigh((Re[k] + Re[k].conj().T) / 2.0)
+                Rmh = (V / np.sqrt(lam)) @ V.conj().T
+                sv = np.linalg.svd(Rmh @ H[k * n:(k + 1) * n, :] @ np.asarray(Ms_all[k]),
+                                   compute_uv=False)
+                smax, smin = max(smax, float(sv[0])), min(smin, float(sv[-1]))
+            kap_whole = smax / smin if smin > 0 else math.inf
+        except Exception:  # malformed precoders are reported by B1 below
+            kap_whole = None
     chk.outcome("metric_x_rank", (kind, str(metric), r))
     for k in range(K):
         Msk = np.asarray(Ms_all[k])
@@ -355,7 +391,14 @@ def check_ext(chk, Hfull, K, n, r, noise, pe, iPu, variant, res, case):
             chk.fail(name + ("user_power_ne_iPu",), case, observed=p, expected=iPu)
         # B4
         A = Hk @ Msk
-        kap = two(Wk) * two(A)
+        kap = own_kappa(kind, metric, nsk, n, A, Re[k])
+        if kind == "whitening" and kap_whole is not None:
+            kap = max(kap, kap_whole)
+        if kap is None:
+            # degenerate eigen-subspace of R_e: the kept subspace is not unique, its
+            # conditioning can only be read off the returned filter
+            chk.count("kappa_from_returned_filter")
+            kap = two(Wk) * two(A)
         if not (kap <= KAPPA_MAX):
             chk.count("excluded_equivalent_channel_cond>1e6")
         else:
